@@ -41,7 +41,7 @@ TReset == /\ IsEv("Reset") /\ l + 1 <= Len(TheTrace) /\ TheTrace[l + 1].act = "I
           /\ cpc' = "idle" /\ cid' = 0 /\ hdr' = 0 /\ coll' = NoColl /\ disk' = Disk0
           /\ snap' = 0 /\ nsnap' = 0 /\ snapst' = [i \in SnapIds |-> Disk0] /\ refs' = [i \in SnapIds |-> 0] /\ closed' = {}
           /\ qpc' = "idle" /\ qkind' = "none" /\ qord' = <<>> /\ qh' = 0 /\ qview' = 0 /\ qreads' = <<>> /\ qres' = "none" /\ qdone' = 0
-          /\ gcid' = 0 /\ hist' = <<>>
+          /\ gcid' = 0 /\ mpend' = 0 /\ hist' = <<>>
           /\ l' = l + 2
 
 TraceNext == TSilent \/ TWrite \/ TNoopWrite \/ TCrash \/ TReopen \/ TEnd \/ TReset
